@@ -79,8 +79,9 @@ func (o Op) Mutating() bool {
 
 // Out is the observable result of an op.
 type Out struct {
-	Err  error
-	Data string
+	Partial string // what a failing read delivered together with its error (bytes / entries read so far)
+	Err     error
+	Data    string
 }
 
 func infoString(info hackpadfs.FileInfo) string {
@@ -111,7 +112,9 @@ func applyOp(fs hackpadfs.FS, o Op) (out Out) {
 				return
 			}
 			if len(o.Data) > 0 && o.Flag&3 != 0 {
-				n, werr := hackpadfs.WriteFile(f, o.Data)
+				buf := append([]byte(nil), o.Data...)
+				n, werr := hackpadfs.WriteFile(f, buf)
+				scribble(buf)
 				out.Data = fmt.Sprintf("write n=%d %s", n, okFail(werr))
 			}
 			cerr := f.Close()
@@ -124,7 +127,9 @@ func applyOp(fs hackpadfs.FS, o Op) (out Out) {
 			}()
 		}
 	case "WriteFullFile":
-		out.Err = hackpadfs.WriteFullFile(fs, o.P, o.Data, o.Perm)
+		buf := append([]byte(nil), o.Data...)
+		out.Err = hackpadfs.WriteFullFile(fs, o.P, buf, o.Perm)
+		scribble(buf)
 	case "Remove":
 		out.Err = hackpadfs.Remove(fs, o.P)
 	case "RemoveAll":
@@ -149,22 +154,26 @@ func applyOp(fs hackpadfs.FS, o Op) (out Out) {
 	case "ReadDir":
 		ents, err := hackpadfs.ReadDir(fs, o.P)
 		out.Err = err
-		if err == nil {
-			var l []string
-			for _, e := range ents {
-				k := "f"
-				if e.IsDir() {
-					k = "d"
-				}
-				l = append(l, e.Name()+":"+k)
+		var l []string
+		for _, e := range ents {
+			k := "f"
+			if e.IsDir() {
+				k = "d"
 			}
+			l = append(l, e.Name()+":"+k)
+		}
+		if err == nil {
 			out.Data = strings.Join(l, ",")
+		} else if len(l) > 0 {
+			out.Partial = strings.Join(l, ",")
 		}
 	case "ReadFile":
 		b, err := hackpadfs.ReadFile(fs, o.P)
 		out.Err = err
 		if err == nil {
 			out.Data = fmt.Sprintf("%d:%x", len(b), hashStr(string(b)))
+		} else if len(b) > 0 {
+			out.Partial = fmt.Sprintf("%d:%x", len(b), hashStr(string(b)))
 		}
 	case "Create":
 		f, err := hackpadfs.Create(fs, o.P)
@@ -225,6 +234,8 @@ type fsGen struct {
 	dirs   []string // existing directories incl. ".", sorted
 	kinds  []string // op kinds with weights
 	weight []int
+	past   []Op // the last few mutating ops handed out (for echoes)
+	script []Op // a planned sequence handed out before anything else is drawn
 }
 
 func newFsGen(t *T, alpha []string, depth int) *fsGen {
@@ -336,8 +347,96 @@ func (g *fsGen) flags() int {
 
 // next draws the next op.
 func (g *fsGen) next() Op {
+	o := g.draw()
+	if o.Mutating() {
+		g.past = append(g.past, o)
+		if len(g.past) > 6 {
+			g.past = g.past[1:]
+		}
+	}
+	return o
+}
+
+// planUseAfterMove scripts the history "build a chain of directories, move or remove one of its upper links,
+// then create things at the old paths again": whatever an implementation remembers about a path (a verified
+// parent, a cached record) has to be forgotten when an ANCESTOR of that path goes away, not only the path itself.
+func (g *fsGen) planUseAfterMove() {
+	c := g.t.C
+	d := 2 + c.Draw(2)
+	var chain []string
+	p := ""
+	for i := 0; i < d; i++ {
+		p = path.Join(p, g.alpha[c.Draw(len(g.alpha))])
+		chain = append(chain, p)
+		g.script = append(g.script, Op{Kind: "Mkdir", P: p, Perm: 0755})
+	}
+	leafDir := chain[d-1]
+	if c.Chance(1, 2) {
+		g.script = append(g.script, Op{Kind: "WriteFullFile", P: path.Join(leafDir, g.alpha[c.Draw(len(g.alpha))]), Perm: 0644, Data: []byte("x")})
+	} else {
+		g.script = append(g.script, Op{Kind: "Mkdir", P: path.Join(leafDir, g.alpha[c.Draw(len(g.alpha))]), Perm: 0755})
+	}
+	anc := chain[c.Draw(d-1)]
+	if c.Chance(2, 3) {
+		g.script = append(g.script, Op{Kind: "Rename", P: anc, Q: "moved-" + g.alpha[0]})
+	} else {
+		g.script = append(g.script, Op{Kind: "RemoveAll", P: anc})
+	}
+	for i, n := 0, 1+c.Draw(3); i < n; i++ {
+		q := path.Join(leafDir, g.alpha[c.Draw(len(g.alpha))])
+		switch c.Draw(4) {
+		case 0:
+			g.script = append(g.script, Op{Kind: "Mkdir", P: q, Perm: 0755})
+		case 1:
+			g.script = append(g.script, Op{Kind: "WriteFullFile", P: q, Perm: 0644, Data: []byte("y")})
+		case 2:
+			g.script = append(g.script, Op{Kind: "OpenFile", P: q, Flag: hackpadfs.FlagWriteOnly | hackpadfs.FlagCreate, Perm: 0600, Data: []byte("z")})
+		default:
+			g.script = append(g.script, Op{Kind: "MkdirAll", P: q, Perm: 0700})
+		}
+	}
+}
+
+func (g *fsGen) draw() Op {
 	g.step++
 	c := g.t.C
+	if g.step == 1 && c.Chance(1, 10) {
+		g.planUseAfterMove()
+	}
+	if len(g.script) > 0 {
+		o := g.script[0]
+		g.script = g.script[1:]
+		return o
+	}
+	if n := len(g.past); n > 1 && (g.past[n-1].Kind == "Rename" || g.past[n-1].Kind == "RemoveAll" || g.past[n-1].Kind == "Remove") && c.Chance(1, 2) {
+		// right after a rename or removal: an earlier operation whose path lay below what was just moved away, again
+		moved := g.past[n-1].P
+		var below []Op
+		for _, o := range g.past[:n-1] {
+			if strings.HasPrefix(o.P, moved+"/") {
+				below = append(below, o)
+			}
+		}
+		if len(below) > 0 {
+			o := below[c.Draw(len(below))]
+			if c.Chance(1, 2) {
+				o.P = path.Join(path.Dir(o.P), g.name())
+			}
+			return o
+		}
+	}
+	if len(g.past) > 0 && c.Chance(1, 8) {
+		// an echo: an earlier operation again, at the same path or at a sibling of it. After the namespace changed in
+		// between (an ancestor renamed or removed) this is what trips over anything remembered from the first time
+		o := g.past[c.Draw(len(g.past))]
+		if c.Chance(1, 2) && o.P != "." {
+			o.P = path.Join(path.Dir(o.P), g.name())
+		}
+		if o.Kind == "Chtimes" {
+			o.Mtime = int64(1000000000 + 1000*g.step + c.Draw(500))
+		}
+		return o
+	}
 	k := g.kinds[c.Weighted(g.weight...)]
 	o := Op{Kind: k, P: g.path()}
 	switch k {
@@ -418,5 +517,13 @@ func (p pinTracker) update(o Op, ok bool) {
 				delete(p, k)
 			}
 		}
+	}
+}
+
+// scribble overwrites a buffer the harness has just handed to a write call: a writer must not retain its
+// argument (io.Writer), so what the caller does with the buffer afterwards must not show in the file.
+func scribble(b []byte) {
+	for i := range b {
+		b[i] ^= 0xa5
 	}
 }
